@@ -19,7 +19,7 @@ import os
 _BASE = {
     'engine': 'cbmc', 'shims': ['moodycamel', '../harness/C27/shim'],
     'repo_sources': ['dispenso/detail/per_thread_info.cpp', 'dispenso/task_set.cpp'],
-    'models': ['aligned_alloc'],
+    'models': ['aligned_alloc'], 'cflags': ['-fno-inline'],
     'spin_loops': True, 'timeout': int(os.environ.get('DEV_TIMEOUT', 1500)), 'must_reach': 'all',
 }
 _LN = {0: 'plain function (serial)', 99: 'stage(f, kStageNoLimit)'}
